@@ -9,11 +9,12 @@
 -/
 import GherkinVerif.Lemmas.QueuePureLoop
 import GherkinVerif.Props.C18Order
+import GherkinVerif.KDecide
 namespace GV
 
 /-- every state of the regenerated table accepts comment lines and blank lines (by a `Comment` /
     `Empty` test or by `Other`), so such a line never reaches an error tail -/
-theorem C18_fact_comment_blank : Spec.commentBlankTested Gen.parserTable = true := by decide +kernel
+theorem C18_fact_comment_blank : Spec.commentBlankTested Gen.parserTable = true := by kdecide
 
 /-- The queue is an implementation detail, for any table and dialect table passing the checks. -/
 theorem C18_queue_refines_peek_generic (D : List Dialect) (T : Table)
@@ -87,7 +88,7 @@ example : (MState.init Gen.dialects (lit "en")).map
       (fun μ => ((Spec.parseWithPure Gen.dialects Gen.parserTable false μ 0 C18_demoSrc).2.reads,
                  (Spec.parseWithPure Gen.dialects Gen.parserTable false μ 0 C18_demoSrc).2.calls,
                  (Spec.parseWithPure Gen.dialects Gen.parserTable false μ 0 C18_demoSrc).2.lineNo)) =
-    some ([1, 2, 3, 4, 5, 6, 7, 8, 9, 10, 11, 12, 13, 14, 15, 16, 17], 99, 17) := by decide +kernel
+    some ([1, 2, 3, 4, 5, 6, 7, 8, 9, 10, 11, 12, 13, 14, 15, 16, 17], 99, 17) := by kdecide
 
 example : (MState.init Gen.dialects (lit "en")).map
       (fun μ =>
@@ -97,6 +98,6 @@ example : (MState.init Gen.dialects (lit "en")).map
         (a.2.errors.map (·.loc), b.2.errors.map (·.loc), a.2.calls, b.2.calls)) =
     some ([⟨6, some 1⟩, ⟨6, some 1⟩, ⟨7, some 3⟩, ⟨8, some 1⟩, ⟨9, none⟩],
           [⟨6, some 1⟩, ⟨6, some 1⟩, ⟨7, some 3⟩, ⟨8, some 1⟩, ⟨9, none⟩], 51, 51) := by
-  decide +kernel
+  kdecide
 
 end GV
